@@ -19,7 +19,7 @@ func TestFamily(t *testing.T) {
 	e := newEnv(t)
 	famStatus(e, r, o)
 
-	nb, nm := hx.N(10, 150), hx.N(24, 400)
+	nb, nm := hx.N(10, 60), hx.N(24, 150)
 	for i := 0; i < nb; i++ {
 		if i%6 == 5 {
 			e = newEnv(t)
@@ -55,10 +55,10 @@ func TestFamily(t *testing.T) {
 	for _, d := range recDiff {
 		rec("frozen", "active", "lt", d)
 	}
-	for i := 0; i < hx.N(12, 600); i++ {
+	for i := 0; i < hx.N(12, 200); i++ {
 		rec(recSubj[r.Intn(len(recSubj))], recSubst[r.Intn(len(recSubst))], recHeights[r.Intn(3)], recDiff[r.Intn(len(recDiff))])
 	}
-	for rep := 0; rep < hx.N(1, 20); rep++ {
+	for rep := 0; rep < hx.N(1, 6); rep++ {
 		for _, v := range upgVariants {
 			cnt++
 			if cnt%12 == 0 {
